@@ -63,10 +63,13 @@ Definition paren (e : str) : str := 40 :: e ++ [41].
 
 (* Which repairs of /repo the model follows.  [cfg_now] is the code as it is; [cfg_old] is the code before the fix:
    commits 43c33bac (filter 0), 3f873560 (Unitary name / polarisation), 59614844 (detector `compress` keyword),
-   1cc940de (`params or dict()`), fde9e721 (symbolic matrix order), kept so that the historical witnesses still compile. *)
-Record cfg := mkcfg { fix_filter : bool; fix_unitary : bool; fix_detkw : bool; fix_table : bool; fix_symm : bool }.
-Definition cfg_now : cfg := mkcfg true true true true true.
-Definition cfg_old : cfg := mkcfg false false false false false.
+   1cc940de (`params or dict()`), fde9e721 (symbolic matrix order), a50865fb (an expression whose parameters all hold values
+   is written as an expression), da9c4799 (an expression met again is the same object), kept so that the historical
+   witnesses still compile. *)
+Record cfg := mkcfg { fix_filter : bool; fix_unitary : bool; fix_detkw : bool; fix_table : bool; fix_symm : bool;
+                      fix_expr_defined : bool; fix_expr_shared : bool }.
+Definition cfg_now : cfg := mkcfg true true true true true true true.
+Definition cfg_old : cfg := mkcfg false false false false false false false.
 
 Section Codec.
 Variable cf : cfg.
@@ -83,7 +86,9 @@ Definition enc_param (p : param) : wparam :=
   | PFix v => mkwparam (WReal v) [] []
   | PVar n v => let l := enc_leaf (n, v) in mkwparam (wl_type l) (wl_name l) []
   | PExpr e subs =>
-      if all_defined subs then mkwparam (WReal (ev e)) e []      (* `if param.defined` is tested before `_is_expression` *)
+      (* now `_is_expression` is tested first (a50865fb); before, `if param.defined` came first and an expression whose
+         parameters all hold a value was written as the named real value float(expression) *)
+      if negb (fix_expr_defined cf) && all_defined subs then mkwparam (WReal (ev e)) e []
       else mkwparam (WExpression (paren e)) e (map enc_leaf subs)
   end.
 
@@ -94,8 +99,11 @@ Definition pobj := (scope * str * option Qc)%type.
 Definition o_scope (o : pobj) : scope := fst (fst o).
 Definition o_name (o : pobj) : str := snd (fst o).
 Definition o_val (o : pobj) : option Qc := snd o.
-Definition table := list (str * pobj).
-Inductive dparam := DFix (v : Qc) | DVar (o : pobj) | DExpr (e : str) (subs : list pobj) | DSym (e : str) | DNone.
+(* known_params holds Parameter objects and, since da9c4799, Expression objects (identity = creating table + text) *)
+Inductive tobj := TParam (o : pobj) | TExpr (sc : scope) (e : str) (subs : list pobj).
+Definition table := list (str * tobj).
+Inductive dparam := DFix (v : Qc) | DVar (o : pobj) | DExpr (sc : scope) (e : str) (subs : list pobj) | DSym (e : str) | DNone.
+Definition d_of_tobj (t : tobj) : dparam := match t with TParam o => DVar o | TExpr sc e subs => DExpr sc e subs end.
 
 (* deserialize_parameter on a message without expr_parameters; None = an exception *)
 Definition dec_leaf (sc : scope) (t : wptype) (name : str) (k : table) : option (dparam * table) :=
@@ -103,15 +111,16 @@ Definition dec_leaf (sc : scope) (t : wptype) (name : str) (k : table) : option 
   | WReal v =>
       if truthy name then
         match lookup name k with
-        | Some (s', n', Some v') => if Qc_eqb v' v then Some (DVar (s', n', Some v'), k) else None   (* "multiple values" *)
-        | Some (_, _, None) => None                                                               (* float(None) *)
-        | None => let o := (sc, name, Some v) in Some (DVar o, (name, o) :: k)
+        | Some (TParam (s', n', Some v')) => if Qc_eqb v' v then Some (DVar (s', n', Some v'), k) else None  (* "multiple values" *)
+        | Some (TParam (_, _, None)) => None                                                      (* float(None) *)
+        | Some (TExpr _ _ _) => None       (* an expression registered under a parameter's name: float(expression), not modelled *)
+        | None => let o := (sc, name, Some v) in Some (DVar o, (name, TParam o) :: k)
         end
       else Some (DFix v, k)
   | WSymbol s =>
       match lookup s k with
-      | Some o => Some (DVar o, k)
-      | None => let o := (sc, s, None) in Some (DVar o, (name, o) :: k)     (* known_params[serial_param.name] = p *)
+      | Some t => Some (d_of_tobj t, k)
+      | None => let o := (sc, s, None) in Some (DVar o, (name, TParam o) :: k)     (* known_params[serial_param.name] = p *)
       end
   | WExpression e => Some (DSym e, k)                                       (* sp.S(expression) *)
   | WNone => Some (DNone, k)                                                (* falls through: returns None *)
@@ -129,9 +138,15 @@ Fixpoint dec_subs (sc : scope) (ws : list wleaf) (k : table) : option (list pobj
 Definition dec_param (sc : scope) (w : wparam) (k : table) : option (dparam * table) :=
   match wp_type w, wp_subs w with
   | WExpression _, ((_ :: _) as subs) =>
-      match dec_subs sc subs k with
-      | Some (os, k') => Some (DExpr (wp_name w) os, k')    (* Expression(serial_param.name, internal_params) *)
-      | None => None
+      match (if fix_expr_shared cf then lookup (wp_name w) k else None) with
+      | Some t => Some (d_of_tobj t, k)                     (* `if serial_param.name in known_params: return ...` (da9c4799) *)
+      | None =>
+          match dec_subs sc subs k with
+          | Some (os, k') =>                                (* Expression(serial_param.name, internal_params) *)
+              Some (DExpr sc (wp_name w) os,
+                    if fix_expr_shared cf then (wp_name w, TExpr sc (wp_name w) os) :: k' else k')
+          | None => None
+          end
       end
   | t, _ => dec_leaf sc t (wp_name w) k
   end.
@@ -239,7 +254,7 @@ Definition dwidth (d : dcomp) : Z :=
   | DPBS => 2 | DBarrier m _ => m | DSub _ m _ => m
   end.
 Definition is_circuit (d : dcomp) : bool := match d with DLeaf KTD _ | DLeaf KLC _ => false | _ => true end.
-Definition pvars (d : dparam) : list pobj := match d with DVar o => [o] | DExpr _ os => os | _ => [] end.
+Definition pvars (d : dparam) : list pobj := match d with DVar o => [o] | DExpr _ _ os => os | _ => [] end.
 Fixpoint dvars (d : dcomp) : list pobj :=
   match d with
   | DLeaf _ ps => flat_map pvars ps
@@ -293,9 +308,18 @@ Definition dec_kind (sc : scope) (kd : lkind) (ws : list wparam) (k : table) : o
   end.
 (* the component constructor's _set_parameter: "two parameters with the same name in the circuit".  Leaf parameters come
    from the name table (one object per name) but every Expression message is rebuilt as a NEW object *)
-Definition expr_names (ds : list dparam) : list str := flat_map (fun d => match d with DExpr e _ => [e] | _ => [] end) ds.
+Definition expr_ids (ds : list dparam) : list (scope * str) :=
+  flat_map (fun d => match d with DExpr sc e _ => [(sc, e)] | _ => [] end) ds.
+Definition expr_names (ds : list dparam) : list str := map snd (expr_ids ds).
 Fixpoint nodupb (l : list str) : bool :=
   match l with [] => true | x :: r => negb (existsb (str_eqb x) r) && nodupb r end.
+(* two Expression objects of one name in one component raise; since da9c4799 a repeated expression is ONE object (same
+   table, same text), before it every Expression message was a new object *)
+Definition exprs_ok (ds : list dparam) : bool :=
+  if fix_expr_shared cf then
+    forallb (fun x => forallb (fun y => if str_eqb (snd x) (snd y) then scope_eqb (fst x) (fst y) else true) (expr_ids ds))
+            (expr_ids ds)
+  else nodupb (expr_names ds).
 (* CircuitBuilder.deserialize + deserialize_circuit.  [path] = position of this node in the tree (innermost first),
    [sc] = identity of the name table in use, [k] its content.  Now `params if params is not None else dict()`: a nested
    builder always shares the caller's table.  Before 1cc940de it was `params or dict()`: an EMPTY table given by the
@@ -304,7 +328,7 @@ Fixpoint dec_comp (path : list nat) (sc : scope) (w : wcomp) (k : table) {struct
   match w with
   | WLeaf _ _ kd ps =>
       match dec_kind sc kd ps k with
-      | Some (ds, k') => if nodupb (expr_names ds) then Some (DLeaf (wkind kd) ds, k') else None
+      | Some (ds, k') => if exprs_ok ds then Some (DLeaf (wkind kd) ds, k') else None
       | None => None
       end
   | WPerm _ _ p => Some (DPerm p, k)
@@ -341,7 +365,7 @@ Definition dec_component (w : wcomp) : option dcomp := option_map fst (dec_comp 
 (* the expected image: every Parameter object lives in the one root table *)
 Definition inj_obj (nv : str * option Qc) : pobj := ([], fst nv, snd nv).
 Definition inj_param (p : param) : dparam :=
-  match p with PFix v => DFix v | PVar n v => DVar (inj_obj (n, v)) | PExpr e subs => DExpr e (map inj_obj subs) end.
+  match p with PFix v => DFix v | PVar n v => DVar (inj_obj (n, v)) | PExpr e subs => DExpr [] e (map inj_obj subs) end.
 Fixpoint inj (c : comp) : dcomp :=
   match c with
   | CLeaf k ps => DLeaf (wkind k) (map inj_param ps)
